@@ -8,7 +8,9 @@ package c13
 // raft.Server that applies MaxVolumeIdCommand to every master).
 
 import (
+	"context"
 	"fmt"
+	"io"
 	"os"
 	"sort"
 	"strings"
@@ -17,7 +19,11 @@ import (
 
 	"verif/mc"
 
+	"google.golang.org/grpc/metadata"
+
+	"github.com/chrislusf/seaweedfs/weed/pb/master_pb"
 	"github.com/chrislusf/seaweedfs/weed/sequence"
+	weed_server "github.com/chrislusf/seaweedfs/weed/server"
 	"github.com/chrislusf/seaweedfs/weed/storage/needle"
 	"github.com/chrislusf/seaweedfs/weed/topology"
 )
@@ -53,6 +59,41 @@ func (f *fakeRaft) State() string {
 	return raft.Follower
 }
 
+// hbStream hands the real MasterServer.SendHeartbeat handler exactly one full heartbeat and
+// then ends; onSend sees every response in order (1: the volume size limit answer to a first
+// heartbeat, 2: the leader announcement at the bottom of the iteration).
+type hbStream struct {
+	hb     *master_pb.Heartbeat
+	sends  int
+	onSend func(n int)
+	leader string // Leader field of the last response that carried one
+}
+
+func (f *hbStream) Recv() (*master_pb.Heartbeat, error) {
+	if f.hb == nil {
+		return nil, io.EOF
+	}
+	hb := f.hb
+	f.hb = nil
+	return hb, nil
+}
+func (f *hbStream) Send(resp *master_pb.HeartbeatResponse) error {
+	f.sends++
+	if resp.Leader != "" {
+		f.leader = resp.Leader
+	}
+	if f.onSend != nil {
+		f.onSend(f.sends)
+	}
+	return nil
+}
+func (f *hbStream) SetHeader(metadata.MD) error  { return nil }
+func (f *hbStream) SendHeader(metadata.MD) error { return nil }
+func (f *hbStream) SetTrailer(metadata.MD)       {}
+func (f *hbStream) Context() context.Context     { return context.Background() }
+func (f *hbStream) SendMsg(m interface{}) error  { return nil }
+func (f *hbStream) RecvMsg(m interface{}) error  { return io.EOF }
+
 type assignment struct {
 	by       int
 	lo, n    uint64
@@ -61,25 +102,26 @@ type assignment struct {
 }
 
 type failover struct {
-	kind     string
-	dir      string
-	seqs     []sequence.Sequencer
-	closers  []func()
-	topos    []*topology.Topology
-	leader   int
-	hbSince  bool // the current leader has processed a heartbeat since it became leader
-	assigns  []assignment
-	stored   map[uint64]bool
-	maxKey   uint64
-	vids     []needle.VolumeId
-	changes  int
-	step     int
-	hbStep   int // step of the last heartbeat processed by the current leader
+	kind    string
+	dir     string
+	seqs    []sequence.Sequencer
+	closers []func()
+	topos   []*topology.Topology
+	masters []*weed_server.MasterServer
+	leader  int
+	hbSince bool // the current leader has processed a heartbeat since it became leader
+	assigns []assignment
+	stored  map[uint64]bool
+	maxKey  uint64
+	vids    []needle.VolumeId
+	changes int
+	step    int
+	hbStep  int // step of the last heartbeat processed by the current leader
 }
 
 func (s *failover) Reset() {
 	s.Close()
-	s.seqs, s.closers, s.topos = nil, nil, nil
+	s.seqs, s.closers, s.topos, s.masters = nil, nil, nil, nil
 	s.leader, s.hbSince, s.assigns, s.stored, s.maxKey, s.vids, s.changes, s.step, s.hbStep = 0, true, nil, map[uint64]bool{}, 0, nil, 0, 0, 0
 	switch s.kind {
 	case "memory":
@@ -104,7 +146,27 @@ func (s *failover) Reset() {
 	}
 	for i := range s.topos {
 		s.topos[i].RaftServer = &fakeRaft{sys: s, self: i}
+		s.masters = append(s.masters, weed_server.NewMasterServerTopoV(s.topos[i], 1))
 	}
+}
+
+// heartbeat drives the real SendHeartbeat handler of master `to` with one full heartbeat of the
+// volume server (max stored key, its one volume).  electAt > 0: master `to` wins the election
+// while the handler is answering its electAt-th response of this iteration.  It reports whether
+// the volume server was told to stay with this master.
+func (s *failover) heartbeat(to int, electAt int) bool {
+	st := &hbStream{hb: &master_pb.Heartbeat{Ip: "10.0.0.9", Port: 8080, PublicUrl: "10.0.0.9:8080",
+		MaxVolumeCounts: map[string]uint32{"": 4}, MaxFileKey: s.maxKey,
+		Volumes: []*master_pb.VolumeInformationMessage{{Id: 1, Size: 1, FileCount: s.maxKey, Version: uint32(needle.CurrentVersion)}}}}
+	st.onSend = func(n int) {
+		if n == electAt && s.leader != to {
+			s.leader = to
+			s.hbSince = false
+			s.changes++
+		}
+	}
+	s.masters[to].SendHeartbeat(st) // returns io.EOF when the stream ends
+	return st.leader == fmt.Sprintf("m%d", to) && s.leader == to
 }
 
 func (s *failover) Close() {
@@ -115,7 +177,7 @@ func (s *failover) Close() {
 }
 
 func (s *failover) Events() []string {
-	ev := []string{"heartbeat", "leader-change", "grow"}
+	ev := []string{"heartbeat", "heartbeat-elect1", "leader-change", "grow"}
 	if s.hbSince {
 		ev = append(ev, "assign1", "assign2")
 	}
@@ -169,9 +231,18 @@ func (s *failover) Apply(ev string) string {
 			}
 		}
 	case ev == "heartbeat":
-		s.seqs[s.leader].SetMax(s.maxKey)
-		s.hbSince = true
-		s.hbStep = s.step
+		// the volume server's full heartbeat through the real handler of the current leader
+		if s.heartbeat(s.leader, 0) {
+			s.hbSince = true
+			s.hbStep = s.step
+		}
+	case ev == "heartbeat-elect1":
+		// the heartbeat reaches the other master, which wins the election while it answers the
+		// first response of this iteration; told "your leader is me", the volume server stays
+		if s.heartbeat(1-s.leader, 1) {
+			s.hbSince = true
+			s.hbStep = s.step
+		}
 	case ev == "leader-change":
 		s.leader = 1 - s.leader
 		s.hbSince = false
